@@ -226,10 +226,19 @@ func TestMC_C17conv(t *testing.T) {
 			rec(&c17viol{"zone:zero", fmt.Sprintf("zone index 0 becomes %q", s)})
 		}
 	}
+	// ... and the last indexes below 0xFFFFFF: gnet's dtoi, like package net's own zone parser,
+	// rejects decimal zones >= 0xFFFFFF (they then denote an interface name, index 0), so that is
+	// where the domain of numeric zones ends for package net and for this check alike
+	for idx := 0xFFFFFF - 64; idx < 0xFFFFFF; idx++ {
+		total++
+		if got := ip6ZoneToInt(ip6ZoneToString(uint32(idx))); got != idx {
+			rec(&c17viol{"zone:roundtrip", fmt.Sprintf("zone index %d becomes %q which denotes index %d", idx, ip6ZoneToString(uint32(idx)), got)})
+		}
+	}
 	res.Evaluations = total
 	res.Distinct = total
 	res.Exhaustive = true
-	res.Bounds = []string{fmt.Sprintf("{tcp,udp,ip} x %d IPs x (all 65536 ports without zone; ports {0,1,80,65535} with zones %v); invalid IP lengths 3,5,15,17; unix names x networks; zone index round trip for every index 0..%d", len(c17IPs()), zones, maxIdx)}
+	res.Bounds = []string{fmt.Sprintf("{tcp,udp,ip} x %d IPs x (all 65536 ports without zone; ports {0,1,80,65535} with zones %v); invalid IP lengths 3,5,15,17; unix names x networks; zone index round trip for every index 0..%d and 0xFFFFFF-64..0xFFFFFE (numeric zones >= 0xFFFFFF are outside package net's zone grammar)", len(c17IPs()), zones, maxIdx)}
 	res.Samples = []string{"tcp{IP:fe80::fc:ff:fe00:1 Port:65535 Zone:\"eth0\"}", "udp{IP:<nil> Port:0 Zone:\"77\"}", "unix{Name:\"@abstract\" Net:\"unixgram\"}", "zone index 77"}
 	if rp := seqmc.ReplayFile(); rp != "" {
 		v, _ := seqmc.LoadViolation(rp)
